@@ -1,6 +1,8 @@
 #!/bin/bash
 # usage: check.sh <property id> [quick|thorough]
 # Rebuilds the harness against /repo's current working tree (build tag verif) and runs one check.
+# C17 always runs on a -race build. C14 and C12 have a supplementary race-detector phase: a share of the same
+# generated cases is re-run on a -race build (GORACE halt_on_error=0, reports parsed from the log files).
 set -u
 cd "$(dirname "$0")"
 ID="$1"; TIER="${2:-${VERIF_TIER:-quick}}"
@@ -11,10 +13,30 @@ BUILDLOG=logs/build-$ID.log
 BIN=bin/verif
 RACE=""
 case "$ID" in C17) BIN=bin/verif-race; RACE="-race";; esac
-( cd harness && go build $RACE -tags verif -o ../$BIN ./cmd/verif ) >"$BUILDLOG" 2>&1
-if [ $? -ne 0 ]; then
-  echo "build failed (see $BUILDLOG):"; tail -30 "$BUILDLOG"
-  echo "VIOLATION property=$ID replay=$PWD/$BUILDLOG"
-  exit 1
+build() { # build <bin> <raceflag>
+  ( cd harness && go build $2 -tags verif -o ../$1 ./cmd/verif ) >"$BUILDLOG" 2>&1
+  if [ $? -ne 0 ]; then
+    echo "build failed (see $BUILDLOG):"; tail -30 "$BUILDLOG"
+    echo "VIOLATION property=$ID replay=$PWD/$BUILDLOG"
+    exit 1
+  fi
+}
+build $BIN "$RACE"
+SEED="${VERIF_SEED:-1}"
+RACECASES=0
+case "$ID:$TIER" in
+  C14:quick) RACECASES=${VERIF_RACE_CASES:-64};;
+  C14:thorough) RACECASES=${VERIF_RACE_CASES:-800};;
+  C12:thorough) RACECASES=${VERIF_RACE_CASES:-324};;
+esac
+if [ "$RACECASES" -eq 0 ]; then
+  exec ./$BIN check "$ID" --tier "$TIER" --seed "$SEED" --verif "$PWD"
 fi
-exec ./$BIN check "$ID" --tier "$TIER" --seed "${VERIF_SEED:-1}" --verif "$PWD"
+./$BIN check "$ID" --tier "$TIER" --seed "$SEED" --verif "$PWD"; rc=$?
+build bin/verif-race -race
+rm -f logs/racelog-$ID.*
+echo "--- race-detector phase: $RACECASES cases of the $TIER list on a -race build"
+GORACE="halt_on_error=0 exitcode=0 log_path=$PWD/logs/racelog-$ID" VERIF_RACE_LOG="$PWD/logs/racelog-$ID" \
+  ./bin/verif-race check "$ID" --tier "$TIER" --seed "$SEED" --verif "$PWD" --max "$RACECASES" --race-phase; rc2=$?
+[ $rc -ne 0 ] && exit $rc
+exit $rc2
